@@ -94,6 +94,8 @@ SITES = {
     'map_err_const': r'\.\s*map_err\s*\(',
     'map_err_fmt': r'\.\s*map_err\s*\(',
     'ok_or_else': r'\.\s*ok_or_else\s*\(',
+    'any_next': r'\)\s*\.\s*any\s*\(',
+    'format_opaque': r'(?<![\w:])format!\s*\(',
     'opt_map_ctor': r'\.\s*map\s*\(\s*[A-Z]\w*(?:::\w+)+\s*\)',
 }
 
@@ -152,6 +154,22 @@ def apply(text, args):
     rstart = _receiver_start(text, m, s)
     recv = text[rstart:s]
     recv_clean = re.sub('\x01T?\\d+\x01', '', recv).strip()
+    if kind == 'format_opaque':
+        close = rs.match_close(text, m, e - 1)
+        return text[:s] + 'vp_auth::opaque_error_message()' + text[close + 1:], 'format_opaque #%d: format!(..) error message replaced by an opaque String' % k
+    if kind == 'any_next':
+        # RECV.any(|x| P) on an iterator value: std-documented loop `while let Some(x) = it.next() { if P { return true } } false`
+        s = s + 1  # the regex starts at the ')' that ends the receiver
+        rstart = _receiver_start(text, m, s + text[s:].index('.'))
+        dot = s + text[s:].index('.')
+        recv = text[rstart:dot]
+        pat, body, close = _closure(text, m, e - 1)
+        new = ('{ let mut __t4_it = %s; let mut __t4_hit: bool = false; let mut __t4_done: bool = false;\n'
+               'while !__t4_hit && !__t4_done {\n'
+               'match __t4_it.next() { Some(%s) => { if (%s) { __t4_hit = true; } } None => { __t4_done = true; } }\n'
+               '}\n'
+               '__t4_hit }') % (recv.strip(), pat, body)
+        return text[:rstart] + new + text[close + 1:], 'any_next #%d: `%s`.any(|%s| ..)' % (k, rs.norm_ws(re.sub('\x01T?\\d+\x01', '', recv)), pat)
     if kind == 'opt_map_ctor':
         ctor = re.search(r'\(\s*([A-Z]\w*(?:::\w+)+)\s*\)$', text[s:e]).group(1)
         new = '(match %s { Some(__t4_v) => Some(%s(__t4_v)), None => None })' % (recv.strip(), ctor)
